@@ -482,10 +482,25 @@ def lifecycle_check(prop, tier):
         run.sim_part("platform variants", lambda: platform_part(run, prop, tier))
     if prop in ("C02", "C03", "C12"):
         placement_part(run, prop, tier)
+    if prop == "C02":
+        # "any number of functions, any order, any mix": lifetimes that hold dozens to hundreds of installations at once (every
+        # 5th of 60 lifetimes in one process: 33-300 installations over four functions, mixed kinds), restored byte for byte
+        cs2 = [{"id": 1, "mode": "cycles", "cycles": 60 if tier == "quick" else 400, "full": 0, "nf": 4, "pool": "rust", "big_every": 5}]
+        cg2, _, _ = vlib.run_harness("lifecycle", cs2, "cycles_C02", timeout=3000)
+        cfgc2 = tlc.make_cfg("Trace_Api", {"Props": '{"C02", "ALL"}'}, "Trace_Api_C02c")
+        tvc2 = tlc.validate_traces("Trace_Api", cfgc2, [(1, cg2.get(1, []))], WORK, "trace_cycles_C02", timeout=3000)
+        run.traces += len(tvc2["accepted"])
+        run.note_case("big lifetimes %d" % cs2[0]["cycles"])
+        if 1 not in tvc2["accepted"]:
+            evs2 = cg2.get(1, [])
+            reached, total = tvc2["progress"][1]
+            fe = evs2[reached] if reached < len(evs2) else None
+            run.violation("C02 a lifetime holding many installations was not restored byte for byte (installs=%s)" % (fe or {}).get("installs"),
+                          {"first_unmatched_event": fe})
     if prop == "C12":
         # many cycles in one process
         ncyc = 20000 if tier == "quick" else 100000      # > 32 768 installations in one process even in the quick tier
-        cs = [{"id": 1, "mode": "cycles", "cycles": ncyc, "full": 150, "nf": 4, "pool": "rust"}]
+        cs = [{"id": 1, "mode": "cycles", "cycles": ncyc, "full": 150, "nf": 4, "pool": "rust", "big_every": 997}]
         cg, co, _ = vlib.run_harness("lifecycle", cs, "cycles_C12", timeout=3000)
         cfgc = tlc.make_cfg("Trace_Api", {"Props": '{"C12", "ALL"}'}, "Trace_Api_C12c")
         tvc = tlc.validate_traces("Trace_Api", cfgc, [(1, cg.get(1, []))], WORK, "trace_cycles", timeout=3000)
@@ -1461,6 +1476,17 @@ def a64_cases(tier):
         for v in (0, 1):
             for d in (0x4000, -0x4000, R - 4096):
                 add(isa, s0, s0 + d, 0, kind="bool", v=v)
+    # very short targets: the function returns within its first one, two or three instructions (RET = d65f03c0), other code
+    # follows; near and far trampolines
+    RET, NOP, MOVZ = [0xc0, 0x03, 0x5f, 0xd6], [0x1f, 0x20, 0x03, 0xd5], [0xe0, 0x00, 0x80, 0x52]
+    for isa, s0, far in (("a64-linux", src0, R - 0x10000), ("a64-macos", msrc, 1 << 30), ("a64-macos", msrc, -(1 << 30))):
+        for body in (RET, MOVZ + RET, NOP + MOVZ + RET, NOP + NOP + MOVZ + RET):
+            orig = (body + MOVZ + RET + MOVZ + RET)[:16]
+            for d in (0x40000, far):
+                add(isa, s0 + 0x100, s0 + 0x100 + d, 0x0000123456789ab0)
+                cases[-1]["orig"] = orig
+                add(isa, s0 + 0x100, s0 + 0x100 + d, 0, kind="bool", v=1)
+                cases[-1]["orig"] = orig
     # a second installation on a function that already carries one
     for isa, s0 in (("a64-linux", src0), ("a64-macos", msrc)):
         for _ in range(10 if q else 300):
@@ -1615,6 +1641,9 @@ def arm_check(prop, tier):
             else:
                 reg, rule = "?", "other"
         return "C16 isa=%s rule=%s reg=%s" % ("A32" if fe["isa"] == "a32" else "T32", rule, reg)
+    # the forced-boolean cases of all three entry kinds once more, side by side in one scenario (their destination must agree)
+    bools = [c for c in cases if c["kind"] == "bool" and not c.get("prev_fake")]
+    cases = bools * 2 + cases
     groups, nev, unknown = sim_validate(run, prop, cases, 300, key)
     run.extra["sim_cases"] = {"cases": len(cases), "validated": nev, "unknown_instruction_words": unknown}
     ev0 = groups.get(1, [{}])[0]
@@ -1916,6 +1945,12 @@ def async_check(prop, tier):
             lad += [{"act": "Fake", "a": sib, "v": "v2"}, {"act": "Await", "a": "a1", "thread": False}, {"act": "Await", "a": sib, "thread": True},
                     {"act": "Await", "a": "a1", "thread": True}, {"act": "Drop"}]
             hists.append(lad)
+    # one injector holding dozens of installations of the three siblings, interleaved (re-fakes everywhere), then gone
+    for total in (36, 48, 72):
+        big = [{"act": "New"}] + [{"act": "Fake", "a": "a%d" % (1 + (j * 7 + j // 3) % 3), "v": "v1" if j % 2 == 0 else "v2"} for j in range(total)]
+        big += [{"act": "Await", "a": a, "thread": False} for a in ("a1", "a2", "a3")] + [{"act": "Drop"}]
+        big += [{"act": "Await", "a": a, "thread": t} for a in ("a1", "a2", "a3") for t in (False, True)]
+        hists.append(big)
     run.extra["long_sequences"] = len(seenl)
     # requests the operating system refuses (the poll function's page does not become writable): a panic, nothing changes
     rf = tlc.check("MC_Async", "MC_Async_f", workers=1, timeout=3000, coverage=False)
